@@ -9,7 +9,10 @@ use std::fmt::Write as _;
 
 use std::collections::BTreeMap;
 
+mod snapshot;
 mod wire;
+
+pub use snapshot::{PathSnap, Snapshot, SpaceSnap, StreamsSnap};
 
 pub(crate) fn hex(b: &[u8]) -> String {
     if b.is_empty() {
